@@ -252,9 +252,11 @@ pub fn judge_query(text: &str, p: &Parsed, doc: &Doc, aspects: u8, armed: &Armed
                     (t.name_dq, "name_dq"),
                     (t.name_esc_other, "name_esc_other"),
                     (t.name_esc_simple, "name_esc_simple"),
-                    (loc_needs_escape(loc), "doc_key_needs_escape"),
-                    (loc_quote_wrapped(loc), "doc_key_quote_wrapped"),
                 ] {
+                    // a wrong rendering of a document's member name is never explained by the
+                    // open round-trip finding (trigger doc_key_needs_escape): that finding is about
+                    // running a correct path back as a query (judged in c03.rs), and the rendering
+                    // finding KF-C03-enumerated-names-unescaped is fixed - it suppresses nothing
                     if cond && armed.has(name) {
                         j.verdict = Verdict::Known(armed.id_of(name));
                         return j;
